@@ -2353,12 +2353,12 @@ def warm_cases(ctx, rng, deep=False):
                 full_product = pi == 0 and heavy and len(b) <= 2 and (deep or (not quick and len(b) <= 1))
                 idxs = _warm_getitem_indices(b, n, rng, full_product)
                 if pi > 0:
-                    idxs = rng.sample(idxs, min((25 if heavy else 5) if deep else (6 if heavy else 4), len(idxs)))
+                    idxs = rng.sample(idxs, min((25 if heavy else 5) if deep else ((6 if heavy else 4) if quick else 3), len(idxs)))
                 elif quick and not heavy:
                     idxs = rng.sample(idxs, min(10, len(idxs)))
                 for idx in idxs:
                     out.append(dict(base(n, pre), ops=[["getitem", idx_json(idx)]]))
-                if pi > 0 and (quick or pi > 2):
+                if pi > 0 and (not deep or pi > 2):
                     continue
                 neg = rng.choice([-2, -0.5, -3.0])
                 n = rng.randint(3, 4)
